@@ -83,6 +83,16 @@ MUTANTS = [
     ("typeinfo-flag-order-swapped-in-read", "C11", "nodes.TypeInfo", "mypy/nodes.py", "            ti.is_protocol,\n            ti.runtime_protocol,\n            ti.is_final,", "            ti.runtime_protocol,\n            ti.is_protocol,\n            ti.is_final,", "violation"),
     ("typeinfo-self-type-not-written", "C11", "nodes.TypeInfo", "mypy/nodes.py", "        mypy.types.write_type_opt(data, self.self_type)\n        if self.dataclass_transform_spec is None:", "        mypy.types.write_type_opt(data, None)\n        if self.dataclass_transform_spec is None:", "violation"),
     ("typeinfo-abstract-status-zip-swapped", "C11", "nodes.TypeInfo", "mypy/nodes.py", "        ti.abstract_attributes = list(zip(attrs, statuses))", "        ti.abstract_attributes = list(zip(statuses, attrs))", "violation"),
+    ("sqlite-write-forgets-dirty-shard", "C04", "sqlite.write", "mypy/metastore.py", "                (name, mtime, data),\n            )\n            self.dirty_shards.add(self._shard_index(name))", "                (name, mtime, data),\n            )", "violation"),
+    ("sqlite-remove-forgets-dirty-shard", "C04", "sqlite.remove", "mypy/metastore.py", '        db.execute("DELETE FROM files2 WHERE path = ?", (name,))\n        self.dirty_shards.add(self._shard_index(name))', '        db.execute("DELETE FROM files2 WHERE path = ?", (name,))', "violation"),
+    ("sqlite-commit-path-wrong-shard", "C04", "sqlite.commit_path", "mypy/metastore.py", "        if i in self.dirty_shards:\n            self.dbs[i].commit()\n            self.dirty_shards.discard(i)", "        if i in self.dirty_shards:\n            self.dbs[0].commit()\n            self.dirty_shards.discard(i)", "violation"),
+    ("sqlite-shard-index-out-of-range", "C04", "sqlite.shard_index", "mypy/metastore.py", "        return hash_path_stem(name) % self.num_shards", "        return hash_path_stem(name) % (self.num_shards + 1)", "violation"),
+    ("sqlite-commit-skips-shard", "C04", "sqlite.commit.iteration", "mypy/metastore.py", "        for i in self.dirty_shards:\n            self.dbs[i].commit()", "        for i in self.dirty_shards:\n            if i:\n                self.dbs[i].commit()", "violation"),
+    ("sqlite-write-mark-before-execute-harmless", "C04", "sqlite.write", "mypy/metastore.py", "            db = self._db_for(name)\n            db.execute(", "            db = self._db_for(name)\n            self.dirty_shards.add(self._shard_index(name))\n            db.execute(", "pass"),
+    ("stem-last-dot-instead-of-first", "C04", "stem.scan", "mypy/util.py", '        if c == ord("."):\n            end = i', '        if c == ord(".") and end == len(s) - 1:\n            end = i', "violation"),
+    ("stem-hash-reads-past-the-stem", "C04", "stem.fold", "mypy/util.py", "    hv: i64 = 123\n    i = end", "    hv: i64 = 123\n    i = len(s) - 1", "violation"),
+    ("meta-ex-name-changes-the-stem", "C04", "get_meta_ex_name", "mypy/build.py", '    parts[1] = "meta_ex"\n    return ".".join(parts)', '    parts[0] = parts[0] + "_ex"\n    return ".".join(parts)', "violation"),
+    ("stem-scan-index-renamed-harmless", "C04", "stem.final|stem.fold", "mypy/util.py", "    hv = (hv * 0x85EBCA6B) & 0xFFFFFFFF", "    hv = (0x85EBCA6B * hv) & 0xFFFFFFFF", "pass"),
     ("enabled-parent-check-dropped", "C13", "is_error_code_enabled", "mypy/errors.py", "elif error_code.sub_code_of is not None and error_code.sub_code_of in current_mod_disabled:\n            return False", "elif error_code.sub_code_of is not None and error_code.sub_code_of in current_mod_enabled:\n            return False", "violation"),
 ]
 
